@@ -128,9 +128,9 @@ def run(pid, tier, seed, res, seeds_extra=None, only=None):
     # ---- build rules (C13: a non-debug node depending on a debug node; C11: a setup node depending on a
     #      non-setup node or a DAG parameter): accepted / rejected at build time as Build.v says
     nviol = 240 if tier == "quick" else 2400
-    for _ in range(nviol):
+    for vk_ in range(nviol):
         basec = cases[rng.randrange(len(cases))]
-        vc = kgraph.gen_violation(rng, basec)
+        vc = kgraph.gen_violation(rng, basec, vk_)
         if vc is None:
             continue
         v = vc["viol"]
